@@ -75,6 +75,7 @@ func checkC07(c *Ctx) {
 	checkIndexReadTable(c)
 	// indexed iteration: persisted index merged with the uncommitted overlay
 	checkMergeOrder(c)
+	checkIndexIterGuard(c)
 
 	// ---- (2b) the walks that drop a stale index and rebuild it cannot end early unnoticed
 	c.rule("ERR-E3-index", "index purge / rebuild walks consult the iterator's error before reporting success", 2)
